@@ -8,13 +8,16 @@ Import ListNotations.
 Local Open Scope string_scope.
 Local Open Scope list_scope.
 
+Fixpoint str_contains (p s : string) : bool :=
+  String.prefix p s || match s with String _ r => str_contains p r | EmptyString => false end.
+
 Section Eval.
   Variables validI validT : string -> bool.
   Notation exp := (exp nat).
 
   Definition toks (e : exp) : list token :=
     match text_of validI validT e with
-    | Some s => match pg_lex true s with Some ts => ts | None => [TBad "?"%char] end
+    | Some s => match pg_lex true s with Some ts => merge_rows_from ts | None => [TBad "?"%char] end
     | None => [TBad "!"%char]
     end.
   Definition cexpr (e : exp) : cn := canon_expr (toks e).
@@ -27,7 +30,7 @@ Section Eval.
     match l with
     | [] => []
     | x :: r =>
-        let pe (e : exp) : rexpr := match pg_parse_expr (toks e) with Some p => p | None => PAtom (toks e) end in
+        let pe (e : exp) : rexpr := parse_or_atom (toks e) in
         [CS (show (norm (fold_left (fun acc y => PBin "AND" acc (pe y)) r (pe x))))]
     end.
 
@@ -185,15 +188,88 @@ Section Eval.
         end
     end.
 
-  Definition is_stmt (e : exp) : bool :=
-    match e with ESelect _ _ _ | EInsert _ | EUpdate _ | EDelete _ => true | _ => false end.
-
   (* the text of a statement as a statement (sub-select parentheses removed) *)
   Definition stmt_text (e : exp) : option string :=
     match run validI validT (Build_opts false false) (compile_top e) sb0 with
     | Some s => Some (bytes_of (out s))
     | None => None
     end.
+
+  (* ------------------------------------------------------------ sub-expressions *)
+  Definition parts_children (p : parts exp) : list exp :=
+    p_distinctOn p ++ (match p_json p with Some j => [j] | None => [] end) ++ map fst (p_list p) ++
+    map (@fi_from exp) (p_from p) ++ p_where p ++ concat (flat_map (@ge_sets exp) (p_groupBys p)) ++ p_having p ++
+    map (@ob_exp exp) (p_orderBys p) ++ [p_limit p; p_offset p].
+  Definition with_children (w : list (withq exp)) : list exp :=
+    flat_map (fun q => wq_query q :: match wq_search q with Some s => ws_by s | None => [] end) w.
+  Definition children (e : exp) : list exp :=
+    match e with
+    | EBase e' | EExists e' | ESubq _ e' | EUnary _ e' _ _ | EExtract _ e' => [e']
+    | EExprs l | EArray l | EJunction l _ | EFuncExp _ _ l | EFunc _ _ l _ _ _ | ERowsFrom l _ => l
+    | EOp l _ r _ | EIn l _ r | EMatch l r _ _ => [l; r]
+    | ECase _ ex conds els => ex :: els :: flat_map (fun c => [fst c; snd c]) conds
+    | EAgg _ _ _ a obs filter _ => a ++ map (@ob_exp exp) obs ++ filter
+    | EJson _ props => map snd props
+    | ESelect w c p => with_children w ++ flat_map (fun b => parts_children (cb_parts b)) c ++ parts_children p
+    | EInsert b => with_children (i_with b) ++ [i_table b; i_query b] ++
+                   (match i_values b with Some rows => concat rows | None => [] end) ++
+                   i_ctargets b ++ i_ctwhere b ++ map snd (i_cset b) ++ i_cwhere b ++ map fst (i_returning b)
+    | EUpdate b => with_children (u_with b) ++ [u_table b] ++ map snd (u_set b) ++ map (@fi_from exp) (u_from b) ++
+                   u_where b ++ map fst (u_returning b)
+    | EDelete b => with_children (d_with b) ++ [d_table b] ++ map (@fi_from exp) (d_using b) ++ d_where b ++
+                   map fst (d_returning b)
+    | EJoin _ _ from _ on _ => [from; on]
+    | _ => []
+    end.
+  Fixpoint all_sub (fuel : nat) (e : exp) : list exp :=
+    match fuel with
+    | O => [e]
+    | S n => e :: flat_map (all_sub n) (children e)
+    end.
+
+  Definition is_stmt (e : exp) : bool :=
+    match e with ESelect _ _ _ | EInsert _ | EUpdate _ | EDelete _ => true | _ => false end.
+
+  Definition refined_func (e : exp) : bool :=
+    match e with EFunc _ _ _ ord al defs => ord || nonempty al || nonnil defs | _ => false end.
+  (* positions where a refined FuncBuilder is a FROM item *)
+  Definition from_sources (l : list (fromitem exp)) : list exp :=
+    flat_map (fun i => match fi_from i with EJoin _ _ from _ _ _ => [from] | src => [src] end) l.
+  Definition allowed_refined (e : exp) : nat :=
+    let cnt (l : list exp) := length (filter refined_func l) in
+    match e with
+    | ESelect _ c p => cnt (flat_map (fun b => from_sources (p_from (cb_parts b))) c ++ from_sources (p_from p))
+    | EUpdate b => cnt (from_sources (u_from b))
+    | EDelete b => cnt (from_sources (d_using b))
+    | ERowsFrom l _ => cnt l
+    | _ => 0
+    end.
+
+  (* compositions outside the property's quantifier (empty operand lists, nil arguments in operand position,
+     a star where a relation is named) and a refined function in expression position, anywhere in the value *)
+  Definition global_classes (e : exp) : list string :=
+    let subs := all_sub 14 e in
+    let has (f : exp -> bool) := existsb f subs in
+    (if has (fun x => match x with EJunction [] _ => true | _ => false end) then ["Q-empty-junction"] else []) ++
+    (if has (fun x => match x with EExprs [] => true | _ => false end) then ["Q-empty-operand-list"] else []) ++
+    (if has (fun x => match x with
+                      | EOp l _ r _ => is_nil l || is_nil r
+                      | EUnary _ x' _ _ | EExists x' | ESubq _ x' | EBase x' => is_nil x'
+                      | EJunction l _ | EExprs l | EArray l | EFuncExp _ _ l | EFunc _ _ l _ _ _ => existsb (@is_nil nat) l
+                      | _ => false
+                      end) then ["Q-nil-operand"] else []) ++
+    (if has (fun x => match x with
+                      | EInsert b => match i_table b with EIdent _ n => str_contains "*" n | _ => false end
+                      | EUpdate b => match u_table b with EIdent _ n => str_contains "*" n | _ => false end
+                      | EDelete b => match d_table b with EIdent _ n => str_contains "*" n | _ => false end
+                      | EJoin _ _ (EIdent _ n) _ _ _ => str_contains "*" n
+                      | ESelect _ c p0 =>
+                          existsb (fun i => match fi_from i with EIdent _ n => str_contains "*" n | _ => false end)
+                            (flat_map (fun b => p_from (cb_parts b)) c ++ p_from p0)
+                      | _ => false
+                      end) then ["Q-star-as-relation"] else []) ++
+    (if Nat.ltb (fold_right (fun x acc => allowed_refined x + acc) 0 subs) (length (filter refined_func subs))
+     then ["D6-refined-function-in-expression"] else []).
 
   (* ------------------------------------------------------------ compositions with recorded deviations *)
   Definition lateral_src_ok (src : exp) : bool :=
@@ -211,17 +287,27 @@ Section Eval.
           (if negb (String.eqb jt "CROSS JOIN") && negb (nonil on) && negb (nonnil usingc) then ["Q-join-without-qualifier"] else []) ++
           (if lateral && negb (lateral_src_ok from) then ["D6-lateral-before-relation"] else [])
       | src =>
+          (match src with
+           | EFunc _ _ _ _ al defs =>
+               (if nonempty al && negb (nonempty (fi_alias i)) && nonnil (fi_colaliases i)
+                then ["D6-function-alias-then-item-column-aliases"] else []) ++
+               (if (nonempty al && nonempty (fi_alias i)) || (nonnil defs && nonnil (fi_colaliases i))
+                then ["D6-alias-on-function-and-on-item"] else [])
+           | _ => []
+           end) ++
           (if fi_lateral i && negb (lateral_src_ok src) then ["D6-lateral-before-relation"] else []) ++
           (if fi_only i && negb (name_src src) then ["D6-only-before-non-relation"] else [])
       end) l.
 
+  Definition real_site (s : string) : bool :=
+    negb (String.prefix "atom/" s) && negb (String.prefix "junction/" s) && negb (String.prefix "rawop/" s).
   Definition cond_classes (l : list exp) : list string :=
     match l with
     | [] | [_] => []
-    | _ => map (fun s => ("D7-" ++ s)%string) (sites (XJunc (map (@xe_of nat) l) false))
+    | _ => map (fun s => ("D7-" ++ s)%string) (filter real_site (sites (XJunc (map (@xe_of nat) l) false)))
     end.
   Definition expr_classes (e : exp) : list string :=
-    if is_nil e then [] else map (fun s => ("D7-" ++ s)%string) (sites (xe_of e)).
+    if is_nil e then [] else map (fun s => ("D7-" ++ s)%string) (filter real_site (sites (xe_of e))).
 
   Definition group_classes (l : list (grouping exp)) : list string :=
     flat_map (fun g => if nonempty (ge_type g) then
@@ -234,8 +320,7 @@ Section Eval.
 
   Definition parts_classes (p : parts exp) (branch : bool) : list string :=
     (if branch && has_tail p then ["D5-setop-branch-tail"] else []) ++
-    from_classes (p_from p) ++ cond_classes (p_where p) ++ cond_classes (p_having p) ++ group_classes (p_groupBys p) ++
-    flat_map (fun t => expr_classes (fst t)) (p_list p).
+    from_classes (p_from p) ++ cond_classes (p_where p) ++ cond_classes (p_having p) ++ group_classes (p_groupBys p).
 
   Fixpoint classes (fuel : nat) (e : exp) : list string :=
     match fuel with
@@ -245,10 +330,20 @@ Section Eval.
         match e with
         | ESelect w c p => ws w ++ flat_map (fun b => parts_classes (cb_parts b) true) c ++ parts_classes p false
         | EInsert b => ws (i_with b) ++ (if nonil (i_query b) then classes n (i_query b) else []) ++
-                       cond_classes (i_ctwhere b) ++ cond_classes (i_cwhere b) ++
-                       (match i_values b with Some rows => flat_map (fun r => flat_map expr_classes r) rows | None => [] end)
+                       (if negb (nonil (i_query b)) && negb (opt_nonnil (i_values b)) && negb (i_default b)
+                        then ["Q-insert-without-values"] else []) ++
+                       (if opt_nonnil (i_values b) && nonil (i_query b) then ["Q-insert-values-and-query"] else []) ++
+                       (match i_values b with
+                        | Some rows => if existsb (fun r => match r with [] => true | _ => false end) rows || negb (nonnil rows)
+                                       then ["Q-empty-value-row"] else []
+                        | None => []
+                        end) ++
+                       (if String.eqb (i_caction b) "DO UPDATE" && negb (nonnil (i_cset b)) then ["Q-do-update-without-set"] else []) ++
+                       (if nonempty (i_cconstraint b) && (nonnil (i_ctargets b) || nonnil (i_ctwhere b))
+                        then ["Q-conflict-constraint-and-target"] else []) ++
+                       cond_classes (i_ctwhere b) ++ cond_classes (i_cwhere b)
         | EUpdate b => ws (u_with b) ++ from_classes (u_from b) ++ cond_classes (u_where b) ++
-                       flat_map (fun s => expr_classes (snd s)) (u_set b)
+                       (if negb (nonnil (u_set b)) then ["Q-update-without-set"] else [])
         | EDelete b => ws (d_with b) ++ from_classes (d_using b) ++ cond_classes (d_where b)
         | _ => []
         end
@@ -265,16 +360,23 @@ Section Eval.
     if negb (is_stmt e) then SSkip "not a statement"
     else
       let composed := show_cn (canon_stmt 12 e) in
+      let cls := classes 12 e ++ global_classes e ++
+                 (if str_contains "!join without a left item" composed then ["Q-join-without-left-item"] else []) ++
+                 (if str_contains "?empty" composed then ["Q-empty-expression"] else []) in
       match pg_lex true sql with
-      | None => SReject composed (classes 12 e)
+      | None => SReject composed cls
       | Some ts =>
           match pg_read_stmt ts with
-          | None => SReject composed (classes 12 e)
+          | None => SReject composed cls
           | Some parsed =>
-              if String.eqb composed (show_cn parsed) then SOk else SMismatch composed (show_cn parsed) (classes 12 e)
+              if String.eqb composed (show_cn parsed) then SOk else SMismatch composed (show_cn parsed) cls
           end
       end.
 
   Definition c01_model (e : exp) : sverdict :=
     match stmt_text e with Some s => c01_eval e s | None => SSkip "panic" end.
+
+  (* every statement nested anywhere inside the value, read back from the model's own text *)
+  Definition nested_stmts (e : exp) : list exp := filter is_stmt (flat_map (all_sub 14) (children e)).
+  Definition c01_nested (e : exp) : list sverdict := map c01_model (nested_stmts e).
 End Eval.
